@@ -569,10 +569,14 @@ def probes_and_e2e(ctx, do_model=True, escalate=1):
                      sample={"tracer": tracer, "dz": dz, "ice": icep, "geometry": g,
                              "solutions": None if paths is None else [[bool(p.direct), float(p.theta0)] for p in paths]})
             if paths is None:
+                # both endpoints lie inside the valid depth range: the tracer has to answer (no solution or two)
                 stats["tracer_exception"] += 1
                 stats.setdefault("exceptions", [])
                 if len(stats["exceptions"]) < 5:
                     stats["exceptions"].append({"geometry": g, "ice": icep["cls"], "error": err})
+                ctx.fail("tracer-raises:%s:%s:%r:%r:%r" % (tracer, icep["cls"], g["z_from"], g["z_to"], g["rho"]),
+                         "%s(dz=%s).solutions raises %s for endpoints inside the ice (%s, depths %r -> %r, rho %r)" % (
+                             tracer, dz, err, icep["cls"], g["z_from"], g["z_to"], g["rho"]), rec)
                 continue
             if not paths:
                 stats["no_solution"] += 1
@@ -660,6 +664,28 @@ def fixed_findings(ctx):
     solutions in ice whose valid range ends below z = 0 (reflection at the top of the range, beta between n(0) and n(top))."""
     icep = ice_params(ctx.rng, default_of="AntarcticIce")
     stats = {}
+    # geometries on which the tracers used to raise 'ValueError: The function value at x=... is NaN' from brentq
+    # (fixed in pyrex: _direct_r at max_angle; max_angle = pi/2 for endpoint pairs so deep that index(z) rounds to n0)
+    green = ice_params(ctx.rng, default_of="GreenlandIce")
+    for tracer, dz, ip, fp, tp in (
+            ("BasicRayTracer", 1.0, icep, (56.9, 178.7, -36.3), (-30.0, 5.0, -300.0)),
+            ("BasicRayTracer", 1.0, icep, (-45.5, -1200.25, -37.0), (271.1, -1425.6, -365.6)),
+            ("SpecializedRayTracer", 1.0, green, (0.0, 0.0, -2081.9), (22.6, 0.0, -1802.66)),
+            ("SpecializedRayTracer", 1.0, green, (10.0, 5.0, -1900.3), (40.0, 12.0, -2240.4)),
+            ("BasicRayTracer", 5.0, green, (0.0, 0.0, -2081.9), (300.0, 0.0, -1802.66))):
+        rho = math.hypot(tp[0] - fp[0], tp[1] - fp[1])
+        g = {"kind": "fixed", "z_from": fp[2], "z_to": tp[2], "rho": rho, "phi": math.atan2(tp[1] - fp[1], tp[0] - fp[0]), "x0": fp[0], "y0": fp[1]}
+        tr = make_tracer(tracer, g, ip, dz)
+        paths, err = solve(tr)
+        rec = {"kind": "geometry", "tracer": tracer, "dz": dz, "ice": ip, "g": g}
+        ctx.case(key=("fixed-raise", tracer, fp, tp))
+        if paths is None:
+            ctx.fail("tracer-raises:%s:%s:%r:%r:%r" % (tracer, ip["cls"], g["z_from"], g["z_to"], g["rho"]),
+                     "%s(dz=%s).solutions raises %s for endpoints inside the ice (%s, %r -> %r)" % (tracer, dz, err, ip["cls"], fp, tp), rec)
+            continue
+        for key, what in judge(ctx, tracer, dz, ip, g, paths, tr, stats):
+            full = key if key in (K_BETA_TOL, K_LINK, K_LOG1) else "%s:%s:%s:%r:%r:%r" % (key, tracer, ip["cls"], g["z_from"], g["z_to"], g["rho"])
+            ctx.fail(full, what, rec)
     ice20 = dict(icep, hi=-20.0, above=None)
     for rho in (550.0, 600.0, 650.0, 700.0):
         g = {"kind": "shallow", "z_from": -300.0, "z_to": -150.0, "rho": rho, "phi": 0.0, "x0": 0.0, "y0": 0.0}
@@ -702,12 +728,11 @@ def run(ctx):
         "scipy.optimize.brentq: `if it returns root then |r(root) - rho| <= tol` is a hypothesis of direct_arrives / indirect_arrives "
         "(checked numerically on every reported solution: rho lies between the model's r just left and right of the root)",
         "root existence, the classification by direct_r_max / indirect_r_max and peak_angle are not proved (exercised by the probes)",
-        "indirect paths that turn over below the surface: the integrand is singular at z_turn; the definite-integral theorems cover every "
-        "segment that stops below z_turn and the reflection case; the limit at z_turn itself is not proved (partial)",
+        "indirect paths that turn over below the surface: the integrands are unbounded at z_turn (not Riemann integrable on the closed leg); "
+        "proved in limit form (turning_depth_limit): proper integrals on [z0, z'] converge to the code's value as z' -> z_turn from below",
         "the numeric tracer is covered by the Darboux bracket only (its tolerance in the probes is that bound)",
         "ice.index / depth_with_index are those of AntarcticIce (ArasimIce and GreenlandIce inherit them; confirmed by the correspondence)"]
-    ctx.partial += ["indirect_turns (improper integral at the turning depth not taken to the limit)",
-                    "numeric tracer: Darboux bracket only"]
+    ctx.partial += ["numeric tracer: Darboux bracket only"]
     try:
         files, hashes = gen_files(ctx.scratch)
         for kf, v in files.items():
